@@ -247,8 +247,9 @@ func NewFloatFromString(typ *types.FloatType, s string) (*Float, error) {
 			return nil, errors.WithStack(err)
 		}
 		// Like LLVM, read the decimal literal as a double first (see below); a
-		// literal below the range of doubles denotes zero.
-		if f64, err := strconv.ParseFloat(s, 64); err == nil {
+		// literal below the range of doubles denotes zero, a literal above the
+		// range of doubles denotes infinity.
+		if f64, err := strconv.ParseFloat(s, 64); err == nil || math.IsInf(f64, 0) {
 			x = big.NewFloat(f64).SetPrec(precision)
 		}
 		// A literal above the range of half denotes infinity (65520 is the
@@ -269,7 +270,7 @@ func NewFloatFromString(typ *types.FloatType, s string) (*Float, error) {
 		}
 		// Like LLVM, read the decimal literal as a double first (see below); a
 		// literal below the range of doubles denotes zero.
-		if f64, err := strconv.ParseFloat(s, 64); err == nil {
+		if f64, err := strconv.ParseFloat(s, 64); err == nil || math.IsInf(f64, 0) {
 			x = big.NewFloat(f64).SetPrec(precision)
 		}
 		c := &Float{
@@ -285,8 +286,9 @@ func NewFloatFromString(typ *types.FloatType, s string) (*Float, error) {
 		}
 		// big.Float has an unbounded exponent range; round to the nearest double
 		// (as LLVM does), so that decimal literals in the subnormal range denote
-		// the double they are read as.
-		if f64, err := strconv.ParseFloat(s, 64); err == nil {
+		// the double they are read as, and literals above the range of doubles
+		// denote infinity.
+		if f64, err := strconv.ParseFloat(s, 64); err == nil || math.IsInf(f64, 0) {
 			x = big.NewFloat(f64).SetPrec(precision)
 		}
 		c := &Float{
